@@ -41,6 +41,8 @@ type CEnv struct {
 	inOld     bool
 	closures  map[string]Val
 	inTrigger bool
+	qdepth    int // number of enclosing binders (bound variables are named by depth, so
+	// that the same formula evaluated twice in the same state has the same text)
 	fuel      string // bound fuel variable in scope ("" = default fuel constant)
 	fuelUsed  *bool
 	seqBinders bool  // lemma context: bound variables of slice type are sequences
@@ -68,11 +70,18 @@ func (env *CEnv) clone() *CEnv {
 
 func (env *CEnv) oldEnv() *CEnv {
 	n := env.clone()
-	n.cur = snapReader{env.old, env.run}
+	n.cur = snapReader{env.old, env.run, env.scriptOf()}
 	n.curAlloc = env.old.alloc
 	n.inOld = true
 	// locals keep their current values inside old(): only the heap is old
 	return n
+}
+
+func (env *CEnv) scriptOf() *Script {
+	if env.st != nil {
+		return env.st.script
+	}
+	return nil
 }
 
 func (env *CEnv) takeFacts() []Term {
@@ -265,6 +274,32 @@ func (env *CEnv) localAlloc(name string) *ssa.Alloc {
 		return cands[len(cands)-1]
 	}
 	return nil
+}
+
+// heapLocalRef returns the cell reference of a captured local variable.
+func (env *CEnv) heapLocalRef(name string) (Term, types.Type, bool) {
+	for fr := env.frame; fr != nil; fr = fr.parent {
+		for _, blk := range fr.fn.Blocks {
+			for _, in := range blk.Instrs {
+				if a, ok := in.(*ssa.Alloc); ok && a.Heap && a.Comment == name {
+					if ref, ok := fr.regs[a].(Term); ok {
+						return ref, a.Type().(*types.Pointer).Elem(), true
+					}
+				}
+			}
+		}
+		for _, fv := range fr.fn.FreeVars {
+			if fv.Name() == name {
+				if ref, ok := fr.regs[fv].(Term); ok {
+					return ref, fv.Type().(*types.Pointer).Elem(), true
+				}
+			}
+		}
+	}
+	if v, ok := env.vars["&"+name]; ok {
+		return v.T, v.Type.(*types.Pointer).Elem(), true
+	}
+	return Term{}, nil, false
 }
 
 func (env *CEnv) heapLocal(name string) (CVal, bool) {
@@ -482,25 +517,31 @@ func (env *CEnv) quant(q *EQuant) CVal {
 	n := env.clone()
 	var binders []string
 	var guards []Term
+	n.qdepth = env.qdepth + 1
 	for _, b := range q.Vars {
-		name := env.run.freshName(b.Name)
+		name := fmt.Sprintf("%s!q%d", sanitizeName(b.Name), env.qdepth)
 		cv := env.bindVar(b, name)
 		binders = append(binders, fmt.Sprintf("(%s %s)", name, cv.T.Sort))
 		n.vars[b.Name] = cv
 		_ = guards
 	}
-	fuelVar := env.run.freshName("fuel")
+	fuelVar := fmt.Sprintf("fuel!q%d", env.qdepth)
 	used := false
 	n.fuel = fuelVar
 	n.fuelUsed = &used
 	body := n.evalBool(q.Body)
-	// facts discovered inside the body may mention bound variables: fold them in
-	inner := n.takeFacts()
-	if len(inner) > 0 {
-		if q.Forall {
-			body = Implies(And(inner...), body)
-		} else {
-			body = And(append(inner, body)...)
+	// Facts discovered inside the body that mention bound variables are
+	// instances of the per-version map axioms (see compInit) and are dropped;
+	// the others are passed up.
+	for _, f := range n.takeFacts() {
+		mentions := false
+		for _, b := range q.Vars {
+			if strings.Contains(f.S, n.vars[b.Name].T.S) {
+				mentions = true
+			}
+		}
+		if !mentions {
+			env.facts = append(env.facts, f)
 		}
 	}
 	var pats []string
@@ -540,6 +581,18 @@ func (env *CEnv) quant(q *EQuant) CVal {
 		}
 	}
 	return CVal{T: Term{"(" + kw + " (" + strings.Join(binders, " ") + ") " + s + ")", SBool}, Type: tBool}
+}
+
+func sanitizeName(s string) string {
+	var b strings.Builder
+	for _, r := range s {
+		if r >= 'a' && r <= 'z' || r >= 'A' && r <= 'Z' || r >= '0' && r <= '9' || r == '_' {
+			b.WriteRune(r)
+		} else {
+			b.WriteByte('_')
+		}
+	}
+	return b.String()
 }
 
 const defaultFuel = "(FS (FS FZ))"
@@ -611,6 +664,13 @@ func (env *CEnv) call(c *ECall) CVal {
 	case "cap":
 		v := env.eval(c.Args[0])
 		return CVal{T: SliceCap(v.T), Type: tInt}
+	case "arr":
+		// identity of the backing array of a slice
+		v := env.eval(c.Args[0])
+		if v.T.Sort != SSlice {
+			env.fail("arr() of non-slice")
+		}
+		return CVal{T: SliceArr(v.T), Type: tInt}
 	case "has":
 		m := env.eval(c.Args[0])
 		k := env.eval(c.Args[1])
@@ -629,6 +689,32 @@ func (env *CEnv) call(c *ECall) CVal {
 			return CVal{T: Or(Ge(SliceArr(v.T), env.old.alloc), Eq(SliceArr(v.T), IntLit(0))), Type: tBool}
 		}
 		env.fail("fresh of sort %s", v.T.Sort)
+	case "atloop":
+		// value of an expression in the heap as it was when the enclosing loop was entered
+		if env.frame == nil || env.loopBlock == nil || env.frame.loopEntry[env.loopBlock.Index] == nil {
+			env.fail("atloop() outside a loop invariant")
+		}
+		le := env.frame.loopEntry[env.loopBlock.Index]
+		n := env.clone()
+		n.cur = snapReader{le, env.run, env.scriptOf()}
+		n.curAlloc = le.alloc
+		v := n.eval(c.Args[0])
+		env.facts = append(env.facts, n.facts...)
+		return v
+	case "loopfresh":
+		// allocated since the enclosing loop was entered (or nil)
+		if env.frame == nil || env.loopBlock == nil || env.frame.loopEntry[env.loopBlock.Index] == nil {
+			env.fail("loopfresh() outside a loop invariant")
+		}
+		le := env.frame.loopEntry[env.loopBlock.Index]
+		v := env.eval(c.Args[0])
+		switch v.T.Sort {
+		case SInt, SRef:
+			return CVal{T: Or(Ge(v.T, le.alloc), Eq(v.T, IntLit(0))), Type: tBool}
+		case SSlice:
+			return CVal{T: Or(Ge(SliceArr(v.T), le.alloc), Eq(SliceArr(v.T), IntLit(0))), Type: tBool}
+		}
+		env.fail("loopfresh of sort %s", v.T.Sort)
 	case "allocated":
 		v := env.eval(c.Args[0])
 		return CVal{T: And(Gt(v.T, IntLit(0)), Lt(v.T, env.allocNow())), Type: tBool}
@@ -674,6 +760,10 @@ func (env *CEnv) call(c *ECall) CVal {
 	case "seq":
 		a := env.eval(c.Args[0])
 		return env.toSeq(a)
+	case "unchanged":
+		// Only meaningful as a proof goal (see split); as an assumption it is
+		// weakened to true, which is sound.
+		return CVal{T: TTrue, Type: tBool}
 	case "nonnil":
 		v := env.eval(c.Args[0])
 		return CVal{T: Neq(v.T, reg.Zero(v.T.Sort)), Type: tBool}
@@ -894,6 +984,29 @@ func (env *CEnv) split(e Expr, decls []string, hyps []Term, out *[]Goal) {
 				n.vars[p] = env.eval(x.Args[i])
 			}
 			n.split(m.Body, decls, append(append([]Term(nil), hyps...), env.takeFacts()...), out)
+			return
+		}
+		if x.Fun == "unchanged" && len(x.Args) == 0 && env.st != nil {
+			// every pre-existing heap location has its entry value
+			run := env.run
+			st := env.st
+			for _, name := range sortedKeys(run.compSorts) {
+				so := run.compSorts[name]
+				cur := st.H(name, so)
+				init := env.old.H(run, st.script, name, so)
+				if cur.S == init.S {
+					continue
+				}
+				if strings.HasPrefix(name, "G:") {
+					*out = append(*out, Goal{Decls: decls, Hyps: hyps, Goal: Eq(cur, init)})
+					continue
+				}
+				r := run.freshName("un")
+				rt := Term{r, SInt}
+				d2 := append(append([]string(nil), decls...), "(declare-const "+r+" Int)")
+				h2 := append(append([]Term(nil), hyps...), Ge(rt, IntLit(0)), Lt(rt, env.old.alloc))
+				*out = append(*out, Goal{Decls: d2, Hyps: h2, Goal: Eq(Select(cur, rt), Select(init, rt))})
+			}
 			return
 		}
 		if x.Fun == "old" && len(x.Args) == 1 {
